@@ -5,7 +5,10 @@ package reader
 import (
 	"context"
 	"sort"
+	"sync"
+	"unsafe"
 
+	"github.com/sasha-s/go-deadlock"
 	clientv3 "go.etcd.io/etcd/client/v3"
 
 	"github.com/milvus-io/milvus/pkg/mq/msgdispatcher"
@@ -24,6 +27,22 @@ func verifYield(point string, channel string, collectionID int64) {
 	if f := VerifYield; f != nil {
 		f(point, channel, collectionID)
 	}
+}
+
+// verifYieldIfFree is a yield point that parks only while nobody holds the given lock: a try-lock on the
+// sync.RWMutex inside the deadlock.RWMutex (its only field) succeeds and is released at once. A goroutine that
+// reaches the point under the lock - the shipped code does - goes on without parking, so the hook never parks a
+// goroutine that others wait for; a variant of the code that no longer holds the lock here becomes schedulable.
+func verifYieldIfFree(l *deadlock.RWMutex, point string, channel string, collectionID int64) {
+	if VerifYield == nil {
+		return
+	}
+	mu := (*sync.RWMutex)(unsafe.Pointer(l))
+	if !mu.TryLock() {
+		return
+	}
+	mu.Unlock()
+	verifYield(point, channel, collectionID)
 }
 
 // VerifNote, when set, receives non-blocking observations made while repo locks
